@@ -340,7 +340,20 @@ def init_trajectory(rep, mir, L, d, tkind):
                 if resample:
                     ev = [e for e in m2.ghost.get('events', []) if e[0] == 'array_gaussian']
                     if len(ev) != 1 or any(sd != '1' for sd in ev[0][1]): rep.violated('C02.f momentum ~ N(0, I) (%s)' % tag, 'init_traj.gaussian', 'momentum not drawn once through array_gaussian(ones): %s' % ev)
+                    if any(e[0] == 'array_normalize' for e in m2.ghost.get('events', [])): rep.violated('C02.f Gaussian momentum is not normalised for the Euclidean kind (%s)' % tag, 'init_traj.gaussian', 'the Euclidean kinetic energy gets a momentum projected to the unit sphere')
         rep.absorb_vm(vm)
+    if tkind != 'diag' or d != 2: return
+    # Microcanonical kind: fresh momentum = Gaussian draw projected to the unit sphere, accumulated kinetic-energy change reset to 0
+    S = Setup(mir, L, d, tkind, 'Microcanonical'); A = S.A; vm = S.vm
+    h, st = S.consistent_start(free=True); m = S.m; sc = m.alloc(h); fn = mir.method('TransformedHamiltonian', 'Hamiltonian', 'initialize_trajectory')
+    outs = vm.run(fn, [Ref(S.hc), S.math, Ref(sc), True, Ref(m.alloc(Opaque('rng')))], m); rep.paths += len(outs)
+    for (m2, k, v) in outs:
+        if k != 'ret' or v.name != 'Ok': rep.violated('C02.f microcanonical initialize_trajectory returns Ok', 'init_traj.reach', 'initialize_trajectory fails: %s %s' % (k, v)); continue
+        o = S.point(m2, h); names = [e[0] for e in m2.ghost.get('events', [])]; units = m2.ghost.get('unit_vectors', [])
+        if names.count('array_gaussian') != 1 or names.count('array_normalize') != 1 or names.index('array_gaussian') > names.index('array_normalize') or not units or not all(a_.eq(b_) for a_, b_ in zip(o['velocity'], units[-1])):
+            rep.violated('C02.f microcanonical momentum = normalised Gaussian draw', 'init_traj.microcanonical', 'the microcanonical trajectory does not start from a Gaussian draw projected to the unit sphere (events %s)' % names)
+        _check(rep, 'C02.f microcanonical initialize_trajectory: accumulated kinetic energy 0, initial_energy = -(logp + logdet), index 0', 'init_traj.microcanonical', S.pre + m2.pc + [z3.Or(o['kinetic_energy'] != 0, o['initial_energy'] != -(o['logp'] + o['logdet']), o['idx'] != 0)], 'microcanonical trajectory start inconsistent')
+    rep.absorb_vm(vm)
 
 def exact_normal(rep, mir, L, d):
     """ExactNormal integrator on a standard normal with the identity transformation conserves energy exactly"""
